@@ -8,15 +8,20 @@
 #include "public/module/structs/bst.h"
 
 #define NELEM 8
-typedef struct { int id; } elem_t;
-static elem_t E[NELEM + 1];
+#include <sanitizer/asan_interface.h>
+/* With a user comparator the elements are objects the comparator reads. An element handed to the destructor is poisoned until the
+   program inserts it again: a library that still compares a destroyed element (as it would a freed one) is reported by ASan.
+   Look-ups and removals by key use separate key objects K[]. */
+typedef struct { int id; int pad[3]; } __attribute__((aligned(16))) elem_t;
+static elem_t E[NELEM + 1], K[NELEM + 1];
 static void *P[NELEM + 1];
 static int dcount[NELEM + 1];
 static int has_dtor, user_cmp;
 static m_bst_t *T; static m_bst_itr_t *TI;
 
 static int idof(void *p) { if (!p) return 0; for (int i = 1; i <= NELEM; i++) if (P[i] == p) return i; return 99; }
-static void dtor(void *p) { int i = idof(p); if (i <= NELEM) dcount[i]++; }
+static int user_cmp_on;
+static void dtor(void *p) { int i = idof(p); if (i <= NELEM) { dcount[i]++; if (user_cmp_on) ASAN_POISON_MEMORY_REGION(&E[i], sizeof E[i]); } }
 static int keyof(int id) { return (id + 1) / 2; }
 static int cmp(void *a, void *b) { return keyof(((elem_t *)a)->id) - keyof(((elem_t *)b)->id); }
 
@@ -68,9 +73,9 @@ static int shape_ok(void) {
 static void apply(const gw_edge *e, char *obs, size_t n) {
     const char *a = e->act;
     long x = e->args[0];
-    if (!strcmp(a, "Insert")) snprintf(obs, n, "%d", norm(m_bst_insert(T, P[x])));
-    else if (!strcmp(a, "Remove")) snprintf(obs, n, "%d", norm(m_bst_remove(T, P[x])));
-    else if (!strcmp(a, "Find")) snprintf(obs, n, "%d", idof(m_bst_find(T, P[x])));
+    if (!strcmp(a, "Insert")) { if (user_cmp) ASAN_UNPOISON_MEMORY_REGION(&E[x], sizeof E[x]); snprintf(obs, n, "%d", norm(m_bst_insert(T, P[x]))); }
+    else if (!strcmp(a, "Remove")) snprintf(obs, n, "%d", norm(m_bst_remove(T, user_cmp ? (void *)&K[x] : P[x])));
+    else if (!strcmp(a, "Find")) snprintf(obs, n, "%d", idof(m_bst_find(T, user_cmp ? (void *)&K[x] : P[x])));
     else if (!strcmp(a, "Clear")) { m_bst_clear(T); snprintf(obs, n, "0"); }
     else if (!strcmp(a, "FreeNew")) { m_bst_free(&T); int nul = T == NULL; mk(); snprintf(obs, n, "%d", nul ? 0 : -1); }
     else if (!strcmp(a, "InOrder")) {
@@ -105,7 +110,7 @@ static int gw_is_nontrivial(const int *prog, int n) {
     return 0;
 }
 static long base_out;
-static void gw_begin(void) { base_out = vp_outstanding; memset(dcount, 0, sizeof dcount); TI = NULL; mk(); }
+static void gw_begin(void) { base_out = vp_outstanding; memset(dcount, 0, sizeof dcount); TI = NULL; ASAN_UNPOISON_MEMORY_REGION(E, sizeof E); mk(); }
 static void gw_step(const gw_edge *e, char *obs, char *proj, size_t n) { apply(e, obs, n); project(proj, n); }
 static void gw_sig(const int *prog, int i, const gw_edge *e, int ok_obs, char *sig, size_t n) {
     int ins = 0, rem = 0;
@@ -124,7 +129,8 @@ static int gw_end(char *msg, size_t n) {
 int main(int argc, char **argv) {
     has_dtor = getenv("VP_DTOR") && atoi(getenv("VP_DTOR"));
     user_cmp = getenv("VP_USERCMP") && atoi(getenv("VP_USERCMP"));
-    for (int i = 0; i <= NELEM; i++) E[i].id = i;
+    for (int i = 0; i <= NELEM; i++) E[i].id = K[i].id = i;
+    user_cmp_on = user_cmp;
     /* default comparator: addresses 2^31, 2^32 and more apart, ascending with the id */
     static const unsigned long long off[NELEM + 1] = {0, 0x10000ULL, 0x80010000ULL, 0x100010000ULL, 0x180010000ULL, 0x300010008ULL,
                                                       0x300010010ULL, 0x7000000010000ULL, 0x7000100010000ULL};
